@@ -478,18 +478,133 @@ func c11Lookup(c *core.Ctx) {
 	}
 }
 
+// orderedQuery parses `SELECT ... FROM t [WHERE conj] ORDER BY k1 d, k2 d LIMIT 1`.
+type orderedQuery struct {
+	table string
+	where []string // conjuncts, normalised
+	keys  []string
+	dirs  []string
+	limit string
+}
+
+func parseOrdered(stmt string) *orderedQuery {
+	tk := sqlTokensUpper(stmt)
+	q := &orderedQuery{}
+	i := 0
+	for ; i < len(tk) && tk[i] != "FROM"; i++ {
+	}
+	if i+1 >= len(tk) {
+		return nil
+	}
+	q.table = tk[i+1]
+	i += 2
+	if i < len(tk) && tk[i] == "WHERE" {
+		i++
+		var cur []string
+		for ; i < len(tk) && tk[i] != "ORDER" && tk[i] != "LIMIT"; i++ {
+			if tk[i] == "AND" {
+				q.where = append(q.where, strings.Join(cur, " "))
+				cur = nil
+				continue
+			}
+			if tk[i] == "OR" {
+				return nil
+			}
+			cur = append(cur, tk[i])
+		}
+		if len(cur) > 0 {
+			q.where = append(q.where, strings.Join(cur, " "))
+		}
+		sort.Strings(q.where)
+	}
+	if i+1 < len(tk) && tk[i] == "ORDER" && tk[i+1] == "BY" {
+		i += 2
+		for i < len(tk) && tk[i] != "LIMIT" {
+			key := tk[i]
+			dir := "ASC"
+			i++
+			if i < len(tk) && (tk[i] == "ASC" || tk[i] == "DESC") {
+				dir = tk[i]
+				i++
+			}
+			q.keys = append(q.keys, key)
+			q.dirs = append(q.dirs, dir)
+			if i < len(tk) && tk[i] == "," {
+				i++
+			}
+		}
+	}
+	if i+1 < len(tk) && tk[i] == "LIMIT" {
+		q.limit = tk[i+1]
+	}
+	return q
+}
+
+// c11Order: the "first"/"last" accessors of the L1 info tree store mean first/last in chain order.
+func c11Order(c *core.Ctx) {
+	const rule = "C11-order"
+	for _, w := range []struct {
+		fn, table, dir string
+		where          []string
+	}{
+		{"GetLatestInfoUntilBlock", "L1INFO_LEAF", "DESC", []string{"BLOCK_NUM <= $1"}},
+		{"getLastIndex", "L1INFO_LEAF", "DESC", nil},
+		{"GetLastInfo", "L1INFO_LEAF", "DESC", nil},
+		{"GetFirstInfo", "L1INFO_LEAF", "ASC", nil},
+		{"GetFirstInfoAfterBlock", "L1INFO_LEAF", "ASC", []string{"BLOCK_NUM >= $1"}},
+		{"GetFirstL1InfoWithRollupExitRoot", "L1INFO_LEAF", "ASC", []string{"ROLLUP_EXIT_ROOT = $1"}},
+		{"GetLastVerifiedBatches", "VERIFY_BATCHES", "DESC", []string{"ROLLUP_ID = $1"}},
+		{"GetFirstVerifiedBatches", "VERIFY_BATCHES", "ASC", []string{"ROLLUP_ID = $1"}},
+		{"GetFirstVerifiedBatchesAfterBlock", "VERIFY_BATCHES", "ASC", []string{"BLOCK_NUM >= $2", "ROLLUP_ID = $1"}},
+	} {
+		fn := c.MustFn(rule, "l1infotreesync", "processor", w.fn)
+		if fn == nil {
+			continue
+		}
+		var stmts []string
+		core.Instrs(fn, func(i ssa.Instruction) {
+			for _, op := range i.Operands(nil) {
+				if op == nil || *op == nil {
+					continue
+				}
+				if s, ok := core.ConstString(*op); ok && strings.Contains(strings.ToUpper(s), "ORDER BY") && strings.Contains(strings.ToUpper(s), w.table) {
+					stmts = append(stmts, s)
+				}
+			}
+		})
+		label := "l1infotreesync.(*processor)." + w.fn + "#chain-order"
+		if len(stmts) != 1 {
+			c.Violate(rule, label, fn.Pos(), fmt.Sprintf("expected one ordered statement over %s, found %d", w.table, len(stmts)))
+			continue
+		}
+		q := parseOrdered(stmts[0])
+		ok := q != nil && q.table == w.table && q.limit == "1" && fmt.Sprint(q.where) == fmt.Sprint(w.where)
+		if ok {
+			// chain order: (block_num, block_pos); for the leaf table the leaf index alone is equivalent (C11-index)
+			pair := len(q.keys) == 2 && q.keys[0] == "BLOCK_NUM" && q.keys[1] == "BLOCK_POS"
+			pos := w.table == "L1INFO_LEAF" && len(q.keys) == 1 && q.keys[0] == "POSITION"
+			ok = pair || pos
+			for _, d := range q.dirs {
+				ok = ok && d == w.dir
+			}
+		}
+		c.Decide(ok, rule, label, fn.Pos(), fmt.Sprintf("%s row in chain order among %v: %+v", map[string]string{"DESC": "last", "ASC": "first"}[w.dir], w.where, q))
+	}
+}
+
 func init() {
 	register(&Property{
 		ID:    "C11",
 		Level: "other",
-		Explanation: "Decides the structural necessary conditions of 'the L1 info tree and rollup exit tree mirror the L1 contracts': C11-leaf — leaf hash keccak(ger‖parent hash‖BE64 timestamp) and GER keccak(mainnet‖rollup) layouts against the contract (shared engine with C09); C11-feed — each of the five watched topics is the ABI signature (read from the contract bindings) of the event its handler parses, the handler's event literal takes every field from the same-named field of the parsed log (ParentHash/Timestamp from the block header, BlockPosition from the log index), every successful handler return has emitted its event, and ProcessBlock builds the leaf from the event field by field (PreviousBlockHash ← ParentHash), computes GlobalExitRoot and Hash from that same object before it is inserted and appended with {Index: L1InfoTreeIndex, Hash}; C11-index — index = initial + per-block counter, initial = getLastIndex()+1 or 0 only on not-found, counter +1 only after AddLeaf succeeded; C11-v2 — a mismatch of the announced root or of Index+1 with the leaf count always latches the halt before any further write; C11-rollup — UpsertLeaf gets {RollupID-1, ExitRoot} only for a non-zero exit root that differs from the stored leaf of that rollup under the last root, and the row records the root returned by that update; C11-lookup — global_exit_root is UNIQUE and the lookups by index / GER are bound to their argument. UpsertLeaf's orientation is C08-orient. Not decided: value equality with the contracts for all histories.",
+		Explanation: "Decides the structural necessary conditions of 'the L1 info tree and rollup exit tree mirror the L1 contracts': C11-leaf — leaf hash keccak(ger‖parent hash‖BE64 timestamp) and GER keccak(mainnet‖rollup) layouts against the contract (shared engine with C09); C11-feed — each of the five watched topics is the ABI signature (read from the contract bindings) of the event its handler parses, the handler's event literal takes every field from the same-named field of the parsed log (ParentHash/Timestamp from the block header, BlockPosition from the log index), every successful handler return has emitted its event, and ProcessBlock builds the leaf from the event field by field (PreviousBlockHash ← ParentHash), computes GlobalExitRoot and Hash from that same object before it is inserted and appended with {Index: L1InfoTreeIndex, Hash}; C11-index — index = initial + per-block counter, initial = getLastIndex()+1 or 0 only on not-found, counter +1 only after AddLeaf succeeded; C11-v2 — a mismatch of the announced root or of Index+1 with the leaf count always latches the halt before any further write; C11-rollup — UpsertLeaf gets {RollupID-1, ExitRoot} only for a non-zero exit root that differs from the stored leaf of that rollup under the last root, and the row records the root returned by that update; C11-lookup — global_exit_root is UNIQUE and the lookups by index / GER are bound to their argument. C11-order — each first/last accessor of the store (GetLastVerifiedBatches, getLastIndex, GetLatestInfoUntilBlock, GetFirst*…) selects by exactly its arguments and orders by chain position (block_num, block_pos; or the leaf index) in the direction its name says, LIMIT 1. UpsertLeaf's orientation is C08-orient. Not decided: value equality with the contracts for all histories.",
 		Rules: []Rule{
-			{ID: "C11-leaf", Floor: 6, Run: func(c *core.Ctx) { c09LeafHash(c); c09GER(c) }, Text: "[LAYOUT] (shared with C09) leaf hash and GER layouts"},
+			{ID: "C11-leaf", Floor: 6, Run: func(c *core.Ctx) { leafHashRule(c, "C11-leaf"); gerRule(c, "C11-leaf") }, Text: "[LAYOUT] (shared with C09) leaf hash and GER layouts"},
 			{ID: "C11-feed", Floor: 40, Run: c11Feed, Text: "ABI topics, handler field maps, emits-or-fails, leaf literal, computed-before-stored, AddLeaf args"},
 			{ID: "C11-index", Floor: 3, Run: c11Index, Text: "initial index and per-block counter discipline"},
 			{ID: "C11-v2", Floor: 2, Run: c11V2, Text: "[DOM] announced-root / leaf-count mismatch latches the halt"},
 			{ID: "C11-rollup", Floor: 4, Run: c11Rollup, Text: "[PROV]+[DOM] rollup exit tree update arguments, guards and recorded root"},
 			{ID: "C11-lookup", Floor: 3, Run: c11Lookup, Text: "[SCHEMA]+SQL lookups by index and GER"},
+			{ID: "C11-order", Floor: 9, Run: c11Order, Text: "SQL: first/last accessors order by chain position, restricted by exactly their arguments"},
 			{ID: "C11-upsert", Floor: 2, Run: func(c *core.Ctx) { treeUpsert(c, "C11-upsert") }, Text: "[TREE] (shared with C08) UpsertLeaf orientation"},
 		},
 	})
